@@ -55,7 +55,7 @@ def programs(tier, rnd):
     # the smallest racing programs are enumerated exhaustively, from a positive count first: they contain the
     # windows lookup-CAS vs forget (load .. compare-exchange) and probe vs removal
     for r0 in (1, 2, 0):
-        for a, b in SMALL: P.append((r0, [a, b], (400 if len(a) + len(b) == 2 and 'R-' not in a + b else (110 if r0 else 40)) if tier == 'quick' else 5000))
+        for a, b in SMALL: P.append((r0, [a, b], (400 if len(a) + len(b) == 2 and 'R-' not in a + b else (80 if r0 else 30)) if tier == 'quick' else 5000))
     two = [(['R-', 'L'], ['F1']), (['R+', 'F1'], ['R-']), (['L'], ['F1', 'L']), (['L', 'L'], ['F1']), (['L', 'F1', 'L'], ['F1']), (['L', 'F2'], ['L', 'F1']), (['F1', 'L'], ['F1', 'L'])]
     for r0 in (0, 1, 2):
         for a, b in two: P.append((r0, [a, b], 20 if tier == 'quick' else 5000))
@@ -67,7 +67,7 @@ def programs(tier, rnd):
     for cell in ((1, 0), (0, 1), (1, 1)):
         for r0 in (1, 0):
             for a, b in [(['L'], ['F1']), (['L'], ['L']), (['R-'], ['F1']), (['F1', 'L'], ['L'])]:
-                P.append((r0, [a, b], 60 if tier == 'quick' else 5000, cell))
+                P.append((r0, [a, b], 40 if tier == 'quick' else 5000, cell))
     if tier != 'quick':
         for r0 in (0, 1, 2):
             P.append((r0, [['L', 'F1', 'L'], ['F1', 'L'], ['L', 'F2']], 100000))
@@ -206,7 +206,7 @@ def run_check(tier, seed):
     d = os.path.join(SCRATCH, 'ptconc', str(os.getpid())); os.makedirs(d, exist_ok=True)      # per process
     import time as _t; _t0 = _t.time()
     budget = 20 if tier == 'quick' else 20           # seconds of enumeration per program (the quick caps by count are reached long before)
-    runs, stats, f1, b1 = explore(bindir, d, progs, rnd, 3 if tier == 'quick' else 30, budget, 'c09')
+    runs, stats, f1, b1 = explore(bindir, d, progs, rnd, 2 if tier == 'quick' else 30, budget, 'c09')
     findings += f1; broken += b1
     complete = stats['programs_fully_enumerated']; truncated = stats['programs_truncated_by_count'] + stats['programs_truncated_by_time']
     ev.cov['harness_s'] = round(_t.time() - _t0, 1)
